@@ -3,12 +3,38 @@ where concrete syntax is produced for generated programs; used by both
 binding directions."""
 
 
+# printing style (C16 transformations): extra redundant parentheses, layout noise inside brackets
+STYLE = {"parens": False, "layout": False}
+
+
+def _wrap(txt):
+    if STYLE["parens"]:
+        txt = f"(({txt}))"
+    return txt
+
+
+def _open():
+    return "( /* c */\n " if STYLE["layout"] else "("
+
+
+def _close():
+    return "\n // end\n )" if STYLE["layout"] else ")"
+
+
+def _comma():
+    return ",\n   /* , */ " if STYLE["layout"] else ", "
+
+
+def _ann(name, ty):
+    return f"{name}:{ty}" if ty else name
+
+
 def _blk(e, ind):
     """print e as the contents of a block (statements separated by newlines)"""
     pad = "  " * ind
     k = e["k"]
     if k == "let":
-        return f"{pad}let {e['x']} = {expr(e['a'], ind)}\n" + _blk(e["b"], ind)
+        return f"{pad}let {_ann(e['x'], e.get('ty'))} = {expr(e['a'], ind)}\n" + _blk(e["b"], ind)
     if k == "lett":
         return f"{pad}let ({', '.join(e['xs'])}) = {expr(e['a'], ind)}\n" + _blk(e["b"], ind)
     if k == "letr":
@@ -40,13 +66,13 @@ def expr(e, ind=0):
     if k == "neg":
         return f"(-{expr(e['a'], ind)})"
     if k == "bin":
-        return f"({expr(e['a'], ind)} {e['op']} {expr(e['b'], ind)})"
+        return _wrap(f"({expr(e['a'], ind)} {e['op']} {expr(e['b'], ind)})")
     if k == "if":
         return f"(if ({expr(e['c'], ind)}) {block(e['t'], ind)} else {block(e['e'], ind)})"
     if k in ("let", "lett", "letr", "asg"):
         return block(e, ind)
     if k == "tup":
-        return "(" + ", ".join(expr(x, ind) for x in e["es"]) + ")"
+        return _open() + _comma().join(expr(x, ind) for x in e["es"]) + _close()
     if k == "proj":
         a = e["a"]
         base = expr(a, ind)
@@ -62,16 +88,16 @@ def expr(e, ind=0):
             base = f"({base})"
         return f"{base}.{e['n']}"
     if k == "lam":
-        ps = ", ".join(e["ps"])
+        ps = ", ".join(_ann(p_, t_) for p_, t_ in zip(e["ps"], e.get("pty") or [None] * len(e["ps"])))
         return f"|{ps}| {block(e['b'], ind)}" if e["ps"] else f"| | {block(e['b'], ind)}"
     if k == "app":
         f = e["f"]
         fs = expr(f, ind) if f["k"] == "var" else f"({expr(f, ind)})"
-        return f"{fs}(" + ", ".join(expr(x, ind) for x in e["as"]) + ")"
+        return f"{fs}" + _open() + _comma().join(expr(x, ind) for x in e["as"]) + _close()
     if k == "call":
         if e.get("pipe") and len(e["as"]) == 1:
             return f"({expr(e['as'][0], ind)} |> {e['f']})"
-        return f"{e['f']}(" + ", ".join(expr(x, ind) for x in e["as"]) + ")"
+        return f"{e['f']}" + _open() + _comma().join(expr(x, ind) for x in e["as"]) + _close()
     if k == "mem":
         return f"mem({expr(e['a'], ind)})"
     if k == "delay":
@@ -137,7 +163,8 @@ def program(p):
 
     def emit(n):
         f = fns[n]
-        out.append(f"fn {n}({', '.join(f['ps'])}){block(f['b'], 0)}")
+        ps = ", ".join(_ann(p_, t_) for p_, t_ in zip(f["ps"], f.get("pty") or [None] * len(f["ps"])))
+        out.append(f"fn {n}({ps}){block(f['b'], 0)}")
     for n in order:
         if n in first:
             emit(n)
